@@ -468,7 +468,8 @@ func (g *GoFakeS3) getObject(
 		return err
 	}
 
-	rnge, err := parseRangeHeader(r.Header.Get("Range"))
+	// (a header sent on several lines is the comma separated list of the lines)
+	rnge, err := parseRangeHeader(strings.Join(r.Header["Range"], ","))
 	if err != nil {
 		return err
 	}
